@@ -1,6 +1,7 @@
 import TlsProofs.RsaDecrypt
 import TlsProofs.PyInt
 import TlsModel.PyExc
+set_option linter.unusedSimpArgs false
 /-
   Link between the Python-runtime model `Tls.PyE` (TlsModel/PyExc.lean) and the hand-written model
   of RSAKey.decrypt (TlsModel/RsaDecrypt.lean).  Nothing here mentions the generated module; the
@@ -142,4 +143,139 @@ theorem fdivLit_nat (x m : Nat) : PyE.fdivLit (x : Int) m = ((x / m : Nat) : Int
   unfold PyE.fdivLit; rw [Int.natCast_ediv]
 theorem modLit_nat (x m : Nat) : PyE.modLit (x : Int) m = ((x % m : Nat) : Int) := by
   unfold PyE.modLit; rw [Int.natCast_emod]
+end Tls.RsaDec
+
+namespace Tls.RsaDec
+open Tls Tls.CT Tls.Py
+
+/-! ### `for` loops, iterators, the final selection -/
+theorem bxor_65535_nat (m : Nat) : Py.bxor 65535 (m : Int) = ((65535 ^^^ m : Nat) : Int) := Eq.trans rfl rfl
+theorem bxor_255_nat (m : Nat) : Py.bxor 255 (m : Int) = ((255 ^^^ m : Nat) : Int) := Eq.trans rfl rfl
+theorem bor_zero_left (m : Nat) : Py.bor 0 (m : Int) = (m : Int) := bor_zero_nat m
+
+theorem lshift_one_nat (b : Nat) : Py.lshift 1 (b : Int) = some ((1 <<< b : Nat) : Int) := by
+  unfold Py.lshift
+  have : ¬ ((b : Int) < 0) := by omega
+  simp only [this, if_false, Int.toNat_natCast]
+  have := shl_nat 1 b
+  rw [show ((1 : Nat) : Int) = 1 from rfl] at this
+  rw [this]
+
+/-- a `for` loop over mapped items whose body, on embedded states, is a pure step -/
+theorem forInL_ok {β γ σ τ : Type} (φ : β → γ) (emb : τ → σ) (body : γ → σ → PyE.M σ) (g : τ → β → τ)
+    (h : ∀ x t, body (φ x) (emb t) = .ok (emb (g t x))) :
+    ∀ (l : List β) (t0 : τ), PyE.forInL (l.map φ) (emb t0) body = .ok (emb (l.foldl g t0)) := by
+  intro l
+  induction l with
+  | nil => intro t0; rfl
+  | cons x xs ih =>
+    intro t0
+    unfold PyE.forInL at ih ⊢
+    rw [List.map_cons, List.foldlM_cons, h]
+    exact ih (g t0 x)
+
+theorem zipSelf_iterBytes : ∀ (lr : Bytes),
+    PyE.zipSelf (PyE.iterBytes lr) = (pairs lr).map fun hl => ((hl.1.toNat : Int), (hl.2.toNat : Int))
+  | [] => rfl
+  | [_] => rfl
+  | a :: b :: rest => by
+    show ((a.toNat : Int), (b.toNat : Int)) :: PyE.zipSelf (PyE.iterBytes rest) = _
+    rw [zipSelf_iterBytes rest]
+    rfl
+
+/-- one iteration of the separator scan (the body of `scan`) -/
+def scanStep (pos : Nat) (v : UInt8) (s : Nat × Nat) : Nat × Nat :=
+  let err := s.1 ||| (ctLtU32 pos 10 &&& (1 ^^^ ctIsNonZeroU32 v.toNat))
+  let mask := (1 ^^^ ctLtU32 pos 10) &&& (1 ^^^ ctIsNonZeroU32 v.toNat) &&& (1 ^^^ ctIsNonZeroU32 s.2)
+  let mask := ctLsbPropU16 mask
+  (err, (s.2 &&& (0xffff ^^^ mask)) ||| ((pos + 1) &&& mask))
+
+theorem scan_cons (pos err ms : Nat) (v : UInt8) (rest : Bytes) :
+    scan pos err ms (v :: rest) =
+      scan (pos + 1) (scanStep pos v (err, ms)).1 (scanStep pos v (err, ms)).2 rest := rfl
+
+/-- the `for pos, val in em_bytes` loop over the rest of an `enumerate` iterator -/
+theorem forInL_enumFrom (body : Int × Int → Int × Int → PyE.M (Int × Int))
+    (h : ∀ (pos : Nat) (v : UInt8) (e ms : Nat),
+      body ((pos : Int), (v.toNat : Int)) ((e : Int), (ms : Int)) =
+        .ok (((scanStep pos v (e, ms)).1 : Int), ((scanStep pos v (e, ms)).2 : Int))) :
+    ∀ (rest : Bytes) (pos e ms : Nat),
+      PyE.forInL (PyE.enumFrom pos rest) ((e : Int), (ms : Int)) body =
+        .ok (((scan pos e ms rest).1 : Int), ((scan pos e ms rest).2 : Int)) := by
+  intro rest
+  induction rest with
+  | nil => intro pos e ms; rfl
+  | cons v rest ih =>
+    intro pos e ms
+    unfold PyE.forInL at ih ⊢
+    rw [PyE.enumFrom, List.foldlM_cons, h, scan_cons]
+    exact ih (pos + 1) _ _
+
+theorem slice_from (d : Bytes) (r : Nat) : Py.slice d (some (r : Int)) none = d.drop r := by
+  unfold Py.slice
+  simp only [sliceBound_nat]
+  by_cases h : r < d.length
+  · simp only [h, if_true]
+    rw [List.take_of_length_le (by simp)]
+  · simp only [h, if_false]
+    rw [List.drop_of_length_le (Nat.le_refl _), List.drop_of_length_le (by omega)]
+    simp
+
+/-- the final `bytearray(x & not_mask | y & mask for x, y in zip(xs, ys))` -/
+theorem select_eq (mask : Nat) : ∀ (xs ys : Bytes),
+    Py.bytearrayOfInts ((PyE.zipBytes xs ys).map fun xy =>
+        Py.bor (Py.band xy.1 ((255 ^^^ mask : Nat) : Int)) (Py.band xy.2 (mask : Int)))
+      = some (selectBytes mask xs ys)
+  | [], _ => rfl
+  | _ :: _, [] => rfl
+  | x :: xs, y :: ys => by
+    have ih := select_eq mask xs ys
+    unfold Py.bytearrayOfInts at ih ⊢
+    unfold selectBytes PyE.zipBytes at *
+    simp only [List.zipWith_cons_cons, List.map_cons, List.mapM_cons, band_nat, bor_nat]
+    have hx := x.toNat_lt
+    have hy := y.toNat_lt
+    have h1 : x.toNat &&& (255 ^^^ mask) < 2^8 := Nat.lt_of_le_of_lt Nat.and_le_left hx
+    have h2 : y.toNat &&& mask < 2^8 := Nat.lt_of_le_of_lt Nat.and_le_left hy
+    have h3 : (x.toNat &&& (255 ^^^ mask)) ||| (y.toNat &&& mask) < 2^8 := Nat.or_lt_two_pow h1 h2
+    have hb : (0 : Int) ≤ (((x.toNat &&& (255 ^^^ mask)) ||| (y.toNat &&& mask) : Nat) : Int) ∧
+        (((x.toNat &&& (255 ^^^ mask)) ||| (y.toNat &&& mask) : Nat) : Int) < 256 := by omega
+    simp only [hb, and_self, if_true, Int.toNat_natCast]
+    simp only [band_nat, bor_nat] at ih
+    rw [ih]
+    rfl
+
+end Tls.RsaDec
+
+namespace Tls.RsaDec
+open Tls Tls.CT Tls.Py
+
+theorem forInL_nat {β γ : Type} (φ : β → γ) (body : γ → Int → PyE.M Int) (g : Nat → β → Nat)
+    (h : ∀ x (t : Nat), body (φ x) (t : Int) = .ok ((g t x : Nat) : Int)) (l : List β) (t0 : Nat) :
+    PyE.forInL (l.map φ) (t0 : Int) body = .ok ((l.foldl g t0 : Nat) : Int) :=
+  forInL_ok φ (fun (t : Nat) => (t : Int)) body g h l t0
+
+theorem next_enumerate2 (b0 b1 : UInt8) (rest : Bytes) :
+    PyE.next (PyE.enumerate (b0 :: b1 :: rest)) =
+      .ok ((((0 : Nat) : Int), (b0.toNat : Int)), PyE.enumFrom 1 (b1 :: rest)) := Eq.trans rfl rfl
+theorem next_enumFrom1 (b1 : UInt8) (rest : Bytes) :
+    PyE.next (PyE.enumFrom 1 (b1 :: rest)) =
+      .ok ((((1 : Nat) : Int), (b1.toNat : Int)), PyE.enumFrom 2 rest) := Eq.trans rfl rfl
+theorem fst_mk' {α β : Type} (a : α) (b : β) : (a, b).1 = a := Eq.trans rfl rfl
+theorem snd_mk' {α β : Type} (a : α) (b : β) : (a, b).2 = b := Eq.trans rfl rfl
+theorem shiftLeft_one_sub (b : Nat) : (((1 <<< b : Nat) : Int) - (1 : Int)) = (((1 <<< b) - 1 : Nat) : Int) := by
+  have : 0 < 1 <<< b := by rw [Nat.one_shiftLeft]; exact Nat.pow_pos (by decide)
+  omega
+theorem lit2 : (2 : Int) = ((2 : Nat) : Int) := rfl
+theorem lit10 : (10 : Int) = ((10 : Nat) : Int) := rfl
+theorem lit0 : (0 : Int) = ((0 : Nat) : Int) := rfl
+
+end Tls.RsaDec
+
+namespace Tls.RsaDec
+/-- the RSAKeyExchange object on the server side: the key, the two versions the premaster's version
+    bytes are compared with, and the value `getRandomBytes(48)` returns in this call -/
+def kexOf (K : Key) (P : Prims) (cache : Option Bytes) (rand : Bytes) (cv sv : Nat × Nat) : PyE.KexSelf :=
+  { privateKey := selfOf K P cache, clientVersion := ((cv.1 : Int), (cv.2 : Int)),
+    serverVersion := ((sv.1 : Int), (sv.2 : Int)), random48 := rand }
 end Tls.RsaDec
